@@ -19,10 +19,72 @@ import (
 	"github.com/wmnsk/go-pfcp/ie"
 	"github.com/wmnsk/go-pfcp/message"
 
+	"github.com/free5gc/go-upf/internal/forwarder"
+	"github.com/free5gc/go-upf/internal/forwarder/perio"
 	"github.com/free5gc/go-upf/internal/pfcp"
 	"github.com/free5gc/go-upf/internal/report"
 	"github.com/free5gc/go-upf/pkg/factory"
 )
+
+// perioDP is the model data plane plus the REAL periodic-report server, wired the way Gtp5g wires it: Create URR with
+// the PERIO trigger registers (lSeid, urrid) under its measurement period, Remove URR deregisters; a tick queries the
+// registered pairs and hands the reports to the PFCP server.  The Measurement Period IE's number is taken as
+// MILLISECONDS here so that real tickers fire during a stress run.
+type perioDP struct {
+	*modelDP
+	ps      *perio.Server
+	next    uint64
+	queries int64
+}
+
+func (d *perioDP) CreateURR(s uint64, req *ie.IE) error {
+	err := d.modelDP.CreateURR(s, req)
+	if err != nil {
+		return err
+	}
+	id, _ := req.URRID()
+	var perioTrig bool
+	var period time.Duration
+	for _, x := range req.ChildIEs {
+		switch x.Type {
+		case ie.ReportingTriggers:
+			if v, e := x.ReportingTriggers(); e == nil && len(v) > 0 && v[0]&1 != 0 {
+				perioTrig = true
+			}
+		case ie.MeasurementPeriod:
+			if v, e := x.MeasurementPeriod(); e == nil {
+				period = time.Duration(v/time.Second) * time.Millisecond
+			}
+		}
+	}
+	if perioTrig && period > 0 {
+		d.ps.AddPeriodReportTimer(s, id, period)
+	}
+	return nil
+}
+
+func (d *perioDP) RemoveURR(s uint64, req *ie.IE) ([]report.USAReport, error) {
+	if id, err := req.URRID(); err == nil {
+		d.ps.DelPeriodReportTimer(s, id)
+	}
+	return d.modelDP.RemoveURR(s, req)
+}
+
+func (d *perioDP) Close() { d.ps.Close() }
+
+// queryURR as handed to perio.Server.Handle: one report per queried pair, each with a unique value (bit 62 set)
+func (d *perioDP) queryURR(m map[uint64][]uint32) (map[uint64][]report.USAReport, error) {
+	atomic.AddInt64(&d.queries, 1)
+	time.Sleep(time.Duration(atomic.AddUint64(&d.next, 1)%3) * 300 * time.Microsecond)
+	out := map[uint64][]report.USAReport{}
+	for seid, ids := range m {
+		for _, id := range ids {
+			v := 1<<62 | atomic.AddUint64(&d.next, 1)
+			out[seid] = append(out[seid], toUSAReport(jRpt{URR: id, Trig: 1, Cnt: []uint64{v, 0, 0, 0, 0, 0}, Start: 1, End: 2}))
+		}
+	}
+	return out, nil
+}
 
 type stressCase struct {
 	Seed       int64 `json:"seed"`
@@ -32,6 +94,7 @@ type stressCase struct {
 	StopInMs   int   `json:"stop_in_ms"` // Stop is issued this long after the load phase started (while load continues)
 	RetransMs  int   `json:"retrans_ms"`
 	MaxRetrans uint8 `json:"maxretrans"`
+	Perio      bool  `json:"perio"` // include the real periodic-report server (ms tickers, registration churn, Close after Stop)
 }
 
 type stressOut struct {
@@ -45,17 +108,40 @@ type stressOut struct {
 	Duplicated       int      `json:"duplicated"`
 	ProducersBlocked int      `json:"producers_blocked"`
 	Requests         int      `json:"requests"`
+	PerioQueries     int      `json:"perio_queries"`
+	Blocked          []string `json:"blocked"` // call sites of goroutines still blocked in channel operations when the wait group did not finish
 }
 
 func stressOne(f *fixture, c stressCase) stressOut {
 	var out stressOut
 	fatalMsg.Store("")
 	rnd := rand.New(rand.NewSource(c.Seed))
-	dp := newModelDP()
+	var wg sync.WaitGroup
+	mdp := newModelDP()
+	var dp forwarder.Driver = mdp
+	var pdp *perioDP
+	if c.Perio {
+		ps, err := perio.OpenServer(&wg)
+		if err != nil {
+			out.Fatal = "harness: " + err.Error()
+			return out
+		}
+		pdp = &perioDP{modelDP: mdp, ps: ps}
+		dp = pdp
+	}
 	cfg := &factory.Config{Pfcp: &factory.Pfcp{Addr: f.prefix + "1", NodeID: f.prefix + "1",
 		RetransTimeout: time.Duration(c.RetransMs) * time.Millisecond, MaxRetrans: c.MaxRetrans}}
 	srv := pfcp.NewPfcpServer(cfg, dp)
-	var wg sync.WaitGroup
+	if pdp != nil {
+		pdp.ps.Handle(srv, pdp.queryURR)
+	}
+	// shutdown as pkg/app does it: Stop the PFCP server, then Close the driver straight away
+	shutdown := func() {
+		srv.Stop()
+		if pdp != nil {
+			pdp.Close()
+		}
+	}
 	srv.Start(&wg)
 	up := false
 	for i := 0; i < 200 && !up; i++ {
@@ -83,6 +169,9 @@ func stressOne(f *fixture, c stressCase) stressOut {
 		send(k, message.NewSessionEstablishmentRequest(0, 0, 0, 2, 0, ie.NewNodeID(peerIP(f.prefix, k), "", ""),
 			ie.NewFSEID(uint64(100+k), net.ParseIP(peerIP(f.prefix, k)), nil),
 			ie.NewCreateURR(ie.NewURRID(1), ie.New(ie.MeasurementMethod, []byte{2})),
+			// a periodic URR that lives until the end (period = 1+k "seconds", taken as milliseconds by perioDP)
+			ie.NewCreateURR(ie.NewURRID(2), ie.New(ie.MeasurementMethod, []byte{2}), ie.NewReportingTriggers(0x01, 0x00),
+				ie.NewMeasurementPeriod(time.Duration(1+k)*time.Second)),
 			ie.NewCreateFAR(ie.NewFARID(1), ie.NewApplyAction(2))))
 		f.barrierRT(time.Second)
 	}
@@ -134,6 +223,18 @@ func stressOne(f *fixture, c stressCase) stressOut {
 					}
 				}
 				switch r.Intn(6) {
+				case 2:
+					if c.Perio { // registration churn: periodic URRs 5..7 come and go
+						seq++
+						id := uint32(5 + r.Intn(3))
+						if r.Intn(2) == 0 {
+							send(k, message.NewSessionModificationRequest(0, 0, uint64(1+k), seq, 0,
+								ie.NewCreateURR(ie.NewURRID(id), ie.New(ie.MeasurementMethod, []byte{2}), ie.NewReportingTriggers(0x01, 0x00),
+									ie.NewMeasurementPeriod(time.Duration(1+r.Intn(3))*time.Second))))
+						} else {
+							send(k, message.NewSessionModificationRequest(0, 0, uint64(1+k), seq, 0, ie.NewRemoveURR(ie.NewURRID(id))))
+						}
+					}
 				case 0:
 					seq++
 					send(k, message.NewHeartbeatRequest(seq, ie.NewRecoveryTimeStamp(time.Unix(1000, 0)), nil))
@@ -198,7 +299,7 @@ func stressOne(f *fixture, c stressCase) stressOut {
 	if c.StopInMs > 0 {
 		// Stop while everything is in flight
 		time.Sleep(time.Duration(c.StopInMs) * time.Millisecond)
-		srv.Stop()
+		shutdown()
 		time.Sleep(time.Duration(c.RunMs) * time.Millisecond)
 		atomic.StoreInt32(&stop, 2)
 		done := make(chan struct{})
@@ -264,7 +365,7 @@ func stressOne(f *fixture, c stressCase) stressOut {
 			}
 		}
 		mu.Unlock()
-		srv.Stop()
+		shutdown()
 	}
 	done := make(chan struct{})
 	go func() { wg.Wait(); close(done) }()
@@ -272,10 +373,14 @@ func stressOne(f *fixture, c stressCase) stressOut {
 	case <-done:
 		out.WgDone = true
 	case <-time.After(5 * time.Second):
+		out.Blocked = blockedSites()
 	}
 	out.Sent = int(atomic.LoadInt64(&sent))
 	out.ProducerPanics = int(atomic.LoadInt32(&panics))
 	out.Requests = int(atomic.LoadInt32(&requests))
+	if pdp != nil {
+		out.PerioQueries = int(atomic.LoadInt64(&pdp.queries))
+	}
 	if fm, _ := fatalMsg.Load().(string); fm != "" {
 		out.Fatal = fm
 	}
